@@ -140,3 +140,44 @@ CONTRACTS.update(
         ),
     }
 )
+
+# ---------------------------------------------------------------------------------------------- white space before a token (32 rules)
+# get_token_and_n_tokens_before_it records the line of the MATCHED token (the last of the region), not of the region's first token;
+# the rule base turns that into "line of the first token" by refusing regions with a line break among the first two tokens and
+# by re-counting the line breaks it skips (extract_tokens).  C07: what is reported is the line of the region that is rewritten.
+BEFORE = "len({R}.lTokens) == iTokens + 1 and 0 <= {R}.iStartIndex and {R}.lTokens == lAllTokens[{R}.iStartIndex:{R}.iStartIndex + iTokens + 1] and {R}.iLine == 1 + ncr(lAllTokens[:{R}.iStartIndex + iTokens]) and {R}.iLine == 1 + ncr(lAllTokens[:{R}.iStartIndex]) + ncr({R}.lTokens[:iTokens])"
+VF = "obj:vsg.vhdlFile.vhdlFile.vhdlFile"
+SLICE_F = SLICE.replace("lAllTokens", "oFile.lAllObjects")
+CONTRACTS.update(
+    {
+        "vsg.vhdlFile.extract.get_token_and_n_tokens_before_it.get_token_and_n_tokens_before_it": dict(
+            types={"lTokens": "list[obj]", "iTokens": "int", "lAllTokens": "list[%s]" % ITEM, "oTokenMap": MAP},
+            requires=["lAllTokens == gall", "iTokens >= 0"],
+            returns="list[%s]" % TOI,
+            locals={"lReturn": "list[%s]" % TOI, "lIndexes": "list[int]"},
+            ensures=["forall(lambda k: %s, 0, len(result))" % BEFORE.format(R="result[k]")],
+            loops={1: dict(invariant=["forall(lambda k: %s, 0, len(lReturn))" % BEFORE.format(R="lReturn[k]")])},
+        ),
+        "vsg.rules.whitespace_before_token.extract_toi": dict(
+            types={"oToi": TOI},
+            requires=["len(oToi.lTokens) == 3"],
+            returns=TOI,
+            ensures=[
+                "implies(isinstance(oToi.lTokens[1], parser.whitespace), result is oToi)",
+                "implies(not isinstance(oToi.lTokens[1], parser.whitespace), result.lTokens == oToi.lTokens[1:3] and result.iStartIndex == oToi.iStartIndex + 1 and result.iLine == oToi.iLine + ncr(oToi.lTokens[:1]))",
+            ],
+        ),
+        "vsg.rules.whitespace_before_token.Rule._get_tokens_of_interest": dict(
+            types={"oFile": VF},
+            fields={"vsg.rules.whitespace_before_token.Rule.lTokens": "list[obj]", "vsg.vhdlFile.vhdlFile.vhdlFile.oTokenMap": MAP},
+            requires=["oFile.lAllObjects == gall"],
+            returns="list[%s]" % TOI,
+            locals={"lReturn": "list[%s]" % TOI, "lToi": "list[%s]" % TOI},
+            ensures=[
+                # [x, white space, token] or [x, token], the slice at the recorded start, reported at the line of its first token
+                "forall(lambda k: (len(result[k].lTokens) == 3 or len(result[k].lTokens) == 2) and %s, 0, len(result))" % SLICE_F.format(R="result[k]"),
+            ],
+            loops={1: dict(invariant=["forall(lambda k: (len(lReturn[k].lTokens) == 3 or len(lReturn[k].lTokens) == 2) and %s, 0, len(lReturn))" % SLICE_F.format(R="lReturn[k]")])},
+        ),
+    }
+)
